@@ -2,7 +2,7 @@
    the project state is characterised by the disk (Proofs/EventsRefine.v good_proj), the saved map is the project's
    error collection, and the client view of every file is exactly what the property demands. *)
 From Coq Require Import List NArith Bool Lia Permutation Sorted PeanoNat.
-From LH Require Import Model.Diag Model.Events Spec.FreshStart Proofs.DiagProofs Proofs.EventsSets Proofs.EventsRefine Proofs.EventsTracks Proofs.EventsBatch.
+From LH Require Import Model.Diag Model.Events Spec.FreshStart Proofs.DiagProofs Proofs.EventsSets Proofs.EventsRefine Proofs.EventsTracks Proofs.EventsBatch Proofs.EventsIndex.
 Import ListNotations.
 Local Open Scope N_scope.
 
@@ -24,15 +24,25 @@ Proof. unfold vget. intros ->. reflexivity. Qed.
 Lemma vget_none m f : aget m f = None -> vget m f = [].
 Proof. unfold vget. intros ->. reflexivity. Qed.
 
-(* pushAllDiagnosticsAgain keeps a file's view right, provided the two finding classes do not strike at this file *)
-Lemma push_all_file_ok fix12a d new v g dty synb :
+(* pushAllDiagnosticsAgain keeps a file's view right, provided the two finding classes do not strike at this file
+   (the class unhidden cannot strike when the repaired code re-hides the files of the clean set) *)
+Lemma push_all_file_ok fix12a fixun d new v g dty synb :
   file_ok dty synb (aget (live d) g) (vget (saved d) g) (vget v g) ->
   nonempty_entries (saved d) -> nonempty_entries new ->
+  fmem g (clean d) = dty && is_nil synb ->
   (dty = true -> aget (live d) g <> None -> is_nil new || fix12a = true \/ vget (saved d) g = vget new g) ->
-  (dty = true -> aget (live d) g = None -> vget (saved d) g = vget new g \/ has_syn (vget new g) = false) ->
-  file_ok dty synb (aget (live d) g) (vget new g) (vget (vapply v (snd (push_all_again fix12a d new))) g).
+  (dty = true -> aget (live d) g = None -> fixun = false -> vget (saved d) g = vget new g \/ has_syn (vget new g) = false) ->
+  file_ok dty synb (aget (live d) g) (vget new g) (vget (vapply v (snd (push_all_again fix12a fixun d new))) g).
 Proof.
-  intros Hok Hne_old Hne_new Hlive Hhid. rewrite push_all_again_view.
+  intros Hok Hne_old Hne_new Hclean Hlive Hhid0. rewrite push_all_again_view.
+  destruct (fixun && fmem g (clean d) && ahas new g) eqn:Ecl.
+  { apply andb_true_iff in Ecl as [Ecl _]. apply andb_true_iff in Ecl as [_ Ecl]. rewrite Ecl in Hclean. symmetry in Hclean.
+    apply andb_true_iff in Hclean as [-> Hs]. unfold file_ok in *. rewrite Hs in *. destruct Hok as [Hl _]. auto. }
+  assert (Hhid : dty = true -> aget (live d) g = None -> is_nil synb = true ->
+                 vget (saved d) g = vget new g \/ has_syn (vget new g) = false).
+  { intros Hd Hl Hs. destruct fixun; [|apply Hhid0; auto]. right. rewrite Hd, Hs in Hclean. cbn [andb] in Hclean, Ecl.
+    rewrite Hclean in Ecl. cbn [andb] in Ecl. unfold ahas in Ecl. unfold vget. destruct (aget new g); [discriminate|reflexivity]. }
+  clear Hhid0 Ecl.
   (* the value pushAll leaves when the live entry is not re-pushed *)
   assert (Hbase : forall same : vget (saved d) g = vget new g \/ True,
       match aget new g, aget (saved d) g with
@@ -53,11 +63,11 @@ Proof.
     + destruct Hok as [Hl Hv]. rewrite Hl. destruct (is_nil new || fix12a); cbn iota; (split; [reflexivity|]).
       * destruct (errs_eqb (vget (saved d) g) (vget new g)) eqn:E.
         -- apply errs_eqb_eq in E. rewrite <- E. exact Hv.
-        -- destruct (Hhid eq_refl Hl) as [H|H]; [rewrite H, errs_eqb_refl in E; discriminate|].
+        -- destruct (Hhid eq_refl Hl eq_refl) as [H|H]; [rewrite H, errs_eqb_refl in E; discriminate|].
            symmetry. apply has_syn_false_nonsyn. exact H.
       * destruct (errs_eqb (vget (saved d) g) (vget new g)) eqn:E.
         -- apply errs_eqb_eq in E. rewrite <- E. exact Hv.
-        -- destruct (Hhid eq_refl Hl) as [H|H]; [rewrite H, errs_eqb_refl in E; discriminate|].
+        -- destruct (Hhid eq_refl Hl eq_refl) as [H|H]; [rewrite H, errs_eqb_refl in E; discriminate|].
            symmetry. apply has_syn_false_nonsyn. exact H.
     + destruct Hok as [Hl Hv]. rewrite Hl. split; [reflexivity|].
       destruct (is_nil new || fix12a) eqn:Eb; [reflexivity|].
@@ -110,7 +120,11 @@ Section Inv.
     i_cache : forall f, aget (cache (sv w)) f = aget (ebuf w) f;
     i_open : forall f, In f (dirty w) -> aget (ebuf w) f <> None;
     i_view : forall f, file_ok (fmem f (dirty w)) (syn_of w f) (aget (live (ds (sv w))) f)
-                               (vget (saved (ds (sv w))) f) (vget v f)
+                               (vget (saved (ds (sv w))) f) (vget v f);
+    (* the clean set of the repaired code: the files with unsaved edits whose buffer has no syntax error *)
+    i_clean : forall f, fmem f (clean (ds (sv w))) = fmem f (dirty w) && is_nil (syn_of w f);
+    (* the repaired index holds the project files only *)
+    i_idx : fix_index fx = true -> idx_eq A (pj (sv w))
   }.
 
   Lemma live_none_of_clean w v f : inv w v -> ~ In f (dirty w) -> aget (live (ds (sv w))) f = None.
@@ -137,12 +151,17 @@ Section Inv.
     - reflexivity.
     - intros f [].
     - intros f. cbn [fmem existsb file_ok aget]. split; [reflexivity|]. apply push_all_init_view.
+    - intros f. reflexivity.
+    - intros _. apply init_idx.
   Qed.
 
   (* ---------- from the class predicates to the hypotheses of the lemmas ---------- *)
-  Lemma stale_ref_false w' : k_stale_ref A w' = false -> nostale_p A (pj (sv w')).
+  Lemma stale_ref_false w' :
+    k_stale_ref A fx w' = false -> (fix_index fx = true -> idx_eq A (pj (sv w'))) ->
+    nostale_p A (pj (sv w')) \/ idx_sub A (pj (sv w')).
   Proof.
-    unfold k_stale_ref, nostale_p. intros H g r t Hg Hr Hin.
+    intros H Hidx. destruct (fix_index fx) eqn:Efix; [right; apply idx_eq_sub; apply Hidx; reflexivity|left].
+    revert H. unfold k_stale_ref, nostale_p. rewrite Efix. cbn [negb andb]. intros H g r t Hg Hr Hin.
     destruct (fmem t (p_files (pj (sv w')))) eqn:E; [apply fmem_in; exact E|]. exfalso.
     assert (existsb (fun f => match res_of A (pj (sv w')) f with
                               | Some r => existsb (fun ot => match ot with Some t => negb (fmem t (p_files (pj (sv w')))) | None => false end) (r_refs r)
@@ -156,8 +175,8 @@ Section Inv.
 
   Lemma classes_step_nil w a w' :
     classes_step A fx w a w' = [] ->
-    k_outside A a = false /\ k_live_cleared A fx w w' = false /\ k_unhidden A w w' = false /\
-    k_close_revert A fx w a = false /\ k_watched_dirty A w a = false /\ k_stale_ref A w' = false /\
+    k_outside A a = false /\ k_live_cleared A fx w w' = false /\ k_unhidden A fx w w' = false /\
+    k_close_revert A fx w a = false /\ k_watched_dirty A fx w a = false /\ k_stale_ref A fx w' = false /\
     k_empty_shortcut A fx w a = false.
   Proof.
     unfold classes_step. intros H.
@@ -170,12 +189,14 @@ Section Inv.
 
   (* ---------- didOpen of a known file ---------- *)
   Lemma did_open_known dk (s : server A) f t :
-    fmem f (p_files (pj s)) = true -> aget (live (ds s)) f = None ->
+    fmem f (p_files (pj s)) = true -> aget (live (ds s)) f = None -> ~ In f (clean (ds s)) ->
     did_open A fx dk s f t =
     ({| pj := set_lru A (pj s) (frem f (p_lru (pj s))); cache := aset (cache s) f t; ds := ds s |}, []).
   Proof.
-    intros H1 H2. unfold did_open. cbn [pj set_lru p_files cache ds]. rewrite H1.
-    unfold clear_change, ahas. cbn [ds]. rewrite H2. reflexivity.
+    intros H1 H2 H3. unfold did_open. cbn [pj set_lru p_files cache ds]. rewrite H1.
+    assert (E : unmark_clean (ds s) f = ds s).
+    { unfold unmark_clean, set_clean. rewrite frem_id by exact H3. destruct (ds s). reflexivity. }
+    rewrite E. unfold clear_change, ahas. cbn [ds]. rewrite H2. reflexivity.
   Qed.
 
   Lemma in_files_of_disk w v f : inv w v -> in_dir A f = true -> aget (disk w) f <> None -> In f (p_files (pj (sv w))).
@@ -194,9 +215,11 @@ Section Inv.
     assert (Hlive : aget (live (ds (sv w))) f = None) by (apply (live_none_of_clean w v); assumption).
     assert (Hfin : fmem f (p_files (pj (sv w))) = true).
     { apply fmem_in. apply (in_files_of_disk w v); [assumption|assumption|congruence]. }
+    assert (Hncl : ~ In f (clean (ds (sv w)))).
+    { intros H. apply fmem_in in H. rewrite (i_clean _ _ I) in H. apply fmem_false in Hnd. rewrite Hnd in H. discriminate. }
     unfold steps. cbn [fold_left fst snd step set_editor disk sv ebuf dirty].
-    rewrite (did_open_known _ _ _ _ Hfin Hlive). cbn [fst snd app vapply fold_left].
-    destruct I as [Ig Is Ine Ic Io Iv]. constructor; cbn [disk sv pj ds cache ebuf dirty].
+    rewrite (did_open_known _ _ _ _ Hfin Hlive Hncl). cbn [fst snd app vapply fold_left].
+    destruct I as [Ig Is Ine Ic Io Iv Icl Iidx]. constructor; cbn [disk sv pj ds cache ebuf dirty].
     - apply good_set_lru. exact Ig.
     - intros g. rewrite errs_of_set_lru. apply Is.
     - exact Ine.
@@ -206,13 +229,19 @@ Section Inv.
       destruct (N.eq_dec f g) as [<-|Hne].
       + apply fmem_false in Hnd. rewrite Hnd in *. exact Iv.
       + rewrite aget_aset_other by exact Hne. exact Iv.
+    - intros g. rewrite (fmem_frem_notin g f _ Hnd), Icl. unfold syn_of. cbn [ebuf].
+      destruct (N.eq_dec f g) as [<-|Hne].
+      + apply fmem_false in Hnd. rewrite Hnd. reflexivity.
+      + rewrite aget_aset_other by exact Hne. reflexivity.
+    - intros Hfix. apply set_lru_idx. apply Iidx. exact Hfix.
   Qed.
 
   (* ---------- didChange ---------- *)
   Lemma did_change_eq (s : server A) f t c : aget (cache s) f = Some c ->
     did_change A s f t =
     if is_nil (syn A t) then
-      ({| pj := set_lru A (pj s) (fadd f (p_lru (pj s))); cache := aset (cache s) f t; ds := fst (clear_change (ds s) f) |},
+      ({| pj := set_lru A (pj s) (fadd f (p_lru (pj s))); cache := aset (cache s) f t;
+          ds := mark_clean (fst (clear_change (ds s) f)) f |},
        snd (clear_change (ds s) f) ++ clear_syntax (fst (clear_change (ds s) f)) f)
     else
       ({| pj := set_lru A (pj s) (fadd f (p_lru (pj s))); cache := aset (cache s) f t; ds := fst (insert_change (ds s) f (syn A t)) |},
@@ -233,7 +262,8 @@ Section Inv.
     pose proof (i_view _ _ I) as Iv.
     destruct (is_nil (syn A t)) eqn:Esyn; cbn [fst snd].
     - (* clean buffer: the live entry goes, the saved list is shown without its syntax errors *)
-      destruct I as [Ig Is Ine Ic Io _]. constructor; cbn [disk sv pj ds cache ebuf dirty].
+      destruct I as [Ig Is Ine Ic Io _ Icl Iidx].
+      constructor; cbn [disk sv pj ds cache ebuf dirty mark_clean set_clean saved live clean].
       + apply good_set_lru. exact Ig.
       + intros g. rewrite clear_change_saved, errs_of_set_lru. apply Is.
       + rewrite clear_change_saved. exact Ine.
@@ -252,8 +282,14 @@ Section Inv.
           -- destruct (is_nil (syn_of w f)); destruct Iv as [Iv1 Iv2]; [exact Iv2|rewrite Iv1 in El; discriminate].
           -- exact (proj2 Iv).
         * cbn [andb]. assert (Hgf : (g =? f) = false) by (rewrite N.eqb_sym; exact E). rewrite Hgf. cbn [orb]. exact Iv.
+      + intros g. rewrite clear_change_clean, !fmem_fadd, Icl. unfold syn_of. cbn [ebuf]. rewrite aget_aset.
+        destruct (f =? g) eqn:E.
+        * apply N.eqb_eq in E. subst g. rewrite N.eqb_refl, Esyn. reflexivity.
+        * assert (Hgf : (g =? f) = false) by (rewrite N.eqb_sym; exact E). rewrite Hgf. reflexivity.
+      + intros Hfix. apply set_lru_idx. apply Iidx. exact Hfix.
     - (* the buffer has syntax errors: they are the live entry and the view *)
-      destruct I as [Ig Is Ine Ic Io _]. constructor; cbn [disk sv pj ds cache ebuf dirty insert_change fst saved live].
+      destruct I as [Ig Is Ine Ic Io _ Icl Iidx].
+      constructor; cbn [disk sv pj ds cache ebuf dirty insert_change fst saved live clean].
       + apply good_set_lru. exact Ig.
       + intros g. rewrite errs_of_set_lru. apply Is.
       + exact Ine.
@@ -264,12 +300,18 @@ Section Inv.
         specialize (Iv g). destruct (f =? g) eqn:E.
         * apply N.eqb_eq in E. subst g. rewrite N.eqb_refl. cbn [orb file_ok]. rewrite Esyn. auto.
         * assert (Hgf : (g =? f) = false) by (rewrite N.eqb_sym; exact E). rewrite Hgf. cbn [orb]. exact Iv.
+      + intros g. rewrite fmem_frem, fmem_fadd, Icl. unfold syn_of. cbn [ebuf]. rewrite aget_aset.
+        destruct (f =? g) eqn:E.
+        * apply N.eqb_eq in E. subst g. rewrite N.eqb_refl, Esyn. reflexivity.
+        * assert (Hgf : (g =? f) = false) by (rewrite N.eqb_sym; exact E). rewrite Hgf. reflexivity.
+      + intros Hfix. apply set_lru_idx. apply Iidx. exact Hfix.
   Qed.
 
   (* ---------- didClose of a workspace file ---------- *)
   Lemma did_close_in (s : server A) f : in_dir A f = true ->
     did_close A fx s f =
-    ({| pj := set_lru A (pj s) (frem f (p_lru (pj s))); cache := adel (cache s) f; ds := fst (clear_change (ds s) f) |},
+    ({| pj := set_lru A (pj s) (frem f (p_lru (pj s))); cache := adel (cache s) f;
+        ds := unmark_clean (fst (clear_change (ds s) f)) f |},
      snd (clear_change (ds s) f) ++ (if fix12b fx then push_file_diag (fst (clear_change (ds s) f)) f false else [])).
   Proof. intros H. unfold did_close. rewrite H. destruct (clear_change (ds s) f). reflexivity. Qed.
 
@@ -288,7 +330,8 @@ Section Inv.
     rewrite (did_close_in _ _ Hd). cbn [fst snd app].
     pose proof (i_view _ _ I) as Iv.
     unfold k_close_revert, saved_of, ahas in Hk. rewrite Eb in Hk. cbn [andb] in Hk.
-    destruct I as [Ig Is Ine Ic Io _]. constructor; cbn [disk sv pj ds cache ebuf dirty].
+    destruct I as [Ig Is Ine Ic Io _ Icl Iidx].
+    constructor; cbn [disk sv pj ds cache ebuf dirty unmark_clean set_clean saved live clean].
     - apply good_set_lru. exact Ig.
     - intros g. rewrite clear_change_saved, errs_of_set_lru. apply Is.
     - rewrite clear_change_saved. exact Ine.
@@ -322,16 +365,22 @@ Section Inv.
           destruct (fix12b fx && ahas (saved (ds (sv w))) f); [reflexivity|exact Iv2].
       + rewrite andb_false_r. cbn [andb]. rewrite fmem_frem_other; [exact Iv|].
         intros ->. rewrite N.eqb_refl in E. discriminate.
+    - intros g. rewrite clear_change_clean, !fmem_frem, Icl. unfold syn_of. cbn [ebuf]. rewrite aget_adel.
+      destruct (f =? g) eqn:E.
+      + apply N.eqb_eq in E. subst g. rewrite N.eqb_refl. reflexivity.
+      + assert (Hgf : (g =? f) = false) by (rewrite N.eqb_sym; exact E). rewrite Hgf. reflexivity.
+    - intros Hfix. apply set_lru_idx. apply Iidx. exact Hfix.
   Qed.
 
   (* ---------- what the two pushAll classes give for one file ---------- *)
   Lemma class_conds w w' g :
-    k_live_cleared A fx w w' = false -> k_unhidden A w w' = false ->
+    k_live_cleared A fx w w' = false -> k_unhidden A fx w w' = false ->
     fmem g (dirty w) = true -> fmem g (dirty w') = true ->
     (aget (live (ds (sv w))) g <> None -> live_has A w' g = true) ->
     (aget (live (ds (sv w))) g <> None ->
        is_nil (saved (ds (sv w'))) || fix12a fx = true \/ saved_of A w g = saved_of A w' g) /\
-    (aget (live (ds (sv w))) g = None -> saved_of A w g = saved_of A w' g \/ has_syn (saved_of A w' g) = false).
+    (aget (live (ds (sv w))) g = None -> fix_unhidden fx = false ->
+       saved_of A w g = saved_of A w' g \/ has_syn (saved_of A w' g) = false).
   Proof.
     intros Hlc Hun Hd Hd' Hlive. split.
     - intros Hl. unfold k_live_cleared in Hlc.
@@ -341,7 +390,7 @@ Section Inv.
       assert (existsb (fun f => live_has A w' f && negb (errs_eqb (saved_of A w f) (saved_of A w' f))) (akeys (live (ds (sv w)))) = true);
         [|congruence].
       apply existsb_exists. exists g. split; [apply aget_in_keys; exact Hl|]. rewrite (Hlive Hl), E. reflexivity.
-    - intros Hl. unfold k_unhidden in Hun.
+    - intros Hl Hfu. unfold k_unhidden in Hun. rewrite Hfu in Hun. cbn [negb andb] in Hun.
       destruct (errs_eqb (saved_of A w g) (saved_of A w' g)) eqn:E; [left; apply errs_eqb_eq; exact E|].
       destruct (has_syn (saved_of A w' g)) eqn:Es; [|right; reflexivity]. exfalso.
       assert (existsb (fun f => fmem f (dirty w') && negb (live_has A w f) && negb (errs_eqb (saved_of A w f) (saved_of A w' f)) &&
@@ -353,8 +402,8 @@ Section Inv.
   Lemma did_save_eq dk (s : server A) f t :
     did_save A fx dk s f t =
     let pc := handle_events A fx dk (pj s) [(f, KChanged)] in
-    let d1 := if snd pc then fst (push_all_again (fix12a fx) (ds s) (all_errs A (fst pc))) else ds s in
-    let ps1 := if snd pc then snd (push_all_again (fix12a fx) (ds s) (all_errs A (fst pc))) else [] in
+    let d1 := if snd pc then fst (push_all_again (fix12a fx) (fix_unhidden fx) (ds s) (all_errs A (fst pc))) else ds s in
+    let ps1 := if snd pc then snd (push_all_again (fix12a fx) (fix_unhidden fx) (ds s) (all_errs A (fst pc))) else [] in
     ({| pj := fst pc; cache := aset (cache s) f t; ds := fst (save_push_again d1 f) |}, ps1 ++ snd (save_push_again d1 f)).
   Proof.
     unfold did_save. cbn [pj cache ds]. destruct (handle_events A fx dk (pj s) [(f, KChanged)]) as [p1 chg]. cbn [fst snd].
@@ -366,7 +415,7 @@ Section Inv.
   Lemma act_save_inv w v f :
     inv w v -> in_dir A f = true -> conf_action A w (ASave f) = true ->
     let w' := fst (act A fx w (ASave f)) in
-    k_live_cleared A fx w w' = false -> k_unhidden A w w' = false -> k_stale_ref A w' = false ->
+    k_live_cleared A fx w w' = false -> k_unhidden A fx w w' = false -> k_stale_ref A fx w' = false ->
     k_empty_shortcut A fx w (ASave f) = false ->
     inv w' (vapply v (snd (act A fx w (ASave f)))).
   Proof.
@@ -380,17 +429,20 @@ Section Inv.
     set (p := pj (sv w)). set (dk := aset (disk w) f t).
     set (pc := handle_events A fx dk p [(f, KChanged)]).
     set (new := all_errs A (fst pc)).
-    set (d1 := if snd pc then fst (push_all_again (fix12a fx) (ds (sv w)) new) else ds (sv w)).
-    set (ps1 := if snd pc then snd (push_all_again (fix12a fx) (ds (sv w)) new) else []).
+    set (d1 := if snd pc then fst (push_all_again (fix12a fx) (fix_unhidden fx) (ds (sv w)) new) else ds (sv w)).
+    set (ps1 := if snd pc then snd (push_all_again (fix12a fx) (fix_unhidden fx) (ds (sv w)) new) else []).
     cbn [fst snd].
     set (w' := {| disk := dk; sv := {| pj := fst pc; cache := aset (cache (sv w)) f t; ds := fst (save_push_again d1 f) |};
                   ebuf := ebuf w; dirty := frem f (dirty w) |}).
     intros Hlc Hun Hst Hemp.
     pose proof (he_changed A fx HA (disk w) p f t (i_good _ _ I) Hd Hpres Hemp) as HE. cbn zeta in HE. fold dk pc in HE.
     destruct HE as [HE1 HE2].
-    assert (Hgood : good_proj A dk (fst pc)) by (apply HE1; apply (stale_ref_false w'); exact Hst).
+    assert (Hidx' : fix_index fx = true -> idx_eq A (fst pc)).
+    { intros Hfix. apply handle_events_idx; [exact Hfix|]. apply (i_idx _ _ I). exact Hfix. }
+    assert (Hgood : good_proj A dk (fst pc)) by (apply HE1; apply (stale_ref_false w'); [exact Hst|exact Hidx']).
     assert (Hsaved1 : saved d1 = if snd pc then new else saved (ds (sv w))) by (unfold d1; destruct (snd pc); reflexivity).
     assert (Hlive1 : live d1 = live (ds (sv w))) by (unfold d1; destruct (snd pc); reflexivity).
+    assert (Hclean1 : clean d1 = clean (ds (sv w))) by (unfold d1; destruct (snd pc); reflexivity).
     assert (Hs1 : forall g, vget (saved d1) g = errs_of A (fst pc) g).
     { intros g. rewrite Hsaved1. destruct (snd pc) eqn:Ec; [apply vget_all_errs|]. rewrite (i_saved _ _ I). symmetry. apply HE2. reflexivity. }
     pose proof (i_view _ _ I) as Iv.
@@ -408,7 +460,7 @@ Section Inv.
         rewrite (fmem_frem_other g f _ Hne). rewrite Hlive1. change (syn_of w' g) with (syn_of w g).
         specialize (Iv g). unfold ps1. destruct (snd pc) eqn:Ec.
         * rewrite Hsaved1.
-          apply push_all_file_ok; [exact Iv|apply (i_saved_ne _ _ I)|apply all_errs_nonempty| |].
+          apply push_all_file_ok; [exact Iv|apply (i_saved_ne _ _ I)|apply all_errs_nonempty|apply (i_clean _ _ I)| |].
           -- intros Hdty Hl.
              destruct (class_conds w w' g Hlc Hun Hdty) as [C1 _].
              { cbn [w' dirty]. rewrite (fmem_frem_other g f _ Hne). exact Hdty. }
@@ -416,45 +468,37 @@ Section Inv.
                destruct (aget (live (ds (sv w))) g); [reflexivity|contradiction]. }
              specialize (C1 Hl). rewrite Hsaved_w' in C1. cbn [w' sv ds] in C1. unfold save_push_again in C1. cbn [fst saved] in C1.
              rewrite Hsaved1 in C1. exact C1.
-          -- intros Hdty Hl.
+          -- intros Hdty Hl Hfu.
              destruct (class_conds w w' g Hlc Hun Hdty) as [_ C2].
              { cbn [w' dirty]. rewrite (fmem_frem_other g f _ Hne). exact Hdty. }
              { intros Hx. contradiction. }
-             specialize (C2 Hl). rewrite !Hsaved_w' in C2. rewrite Hsaved1 in C2. exact C2.
+             specialize (C2 Hl Hfu). rewrite !Hsaved_w' in C2. rewrite Hsaved1 in C2. exact C2.
         * cbn [vapply fold_left]. rewrite Hsaved1. exact Iv.
+    - intros g. rewrite save_push_again_clean, Hclean1, !fmem_frem, (i_clean _ _ I). change (syn_of w' g) with (syn_of w g).
+      rewrite andb_assoc. reflexivity.
+    - exact Hidx'.
   Qed.
 
-  (* ---------- didChangeWatchedFiles with one item ---------- *)
-  Lemma did_watched_one dk (s : server A) f k : aget (live (ds s)) f = None ->
-    did_watched A fx dk s [(f, k)] =
-    let pc := handle_events A fx dk (pj s) [(f, k)] in
-    ({| pj := fst pc; cache := cache s;
-        ds := if snd pc then fst (push_all_again (fix12a fx) (ds s) (all_errs A (fst pc))) else ds s |},
-     if snd pc then snd (push_all_again (fix12a fx) (ds s) (all_errs A (fst pc))) else []).
-  Proof.
-    intros Hl. unfold did_watched. cbn [fold_left fst snd is_nil]. unfold clear_change, ahas. rewrite Hl. cbn [fst snd app pj cache ds].
-    destruct (handle_events A fx dk (pj s) [(f, k)]) as [p1 chg]. cbn [fst snd]. destruct chg.
-    - rewrite push_again_eq. cbn [ds pj cache app]. reflexivity.
-    - reflexivity.
-  Qed.
-
+  (* ---------- didChangeWatchedFiles ---------- *)
   Lemma watched_common w v dk' (pc : proj A * bool) :
     inv w v -> good_proj A dk' (fst pc) ->
+    (fix_index fx = true -> idx_eq A (fst pc)) ->
     (snd pc = false -> forall g, errs_of A (fst pc) g = errs_of A (pj (sv w)) g) ->
-    let d1 := if snd pc then fst (push_all_again (fix12a fx) (ds (sv w)) (all_errs A (fst pc))) else ds (sv w) in
-    let ps1 := if snd pc then snd (push_all_again (fix12a fx) (ds (sv w)) (all_errs A (fst pc))) else [] in
+    let d1 := if snd pc then fst (push_all_again (fix12a fx) (fix_unhidden fx) (ds (sv w)) (all_errs A (fst pc))) else ds (sv w) in
+    let ps1 := if snd pc then snd (push_all_again (fix12a fx) (fix_unhidden fx) (ds (sv w)) (all_errs A (fst pc))) else [] in
     let w' := {| disk := dk'; sv := {| pj := fst pc; cache := cache (sv w); ds := d1 |}; ebuf := ebuf w; dirty := dirty w |} in
-    k_live_cleared A fx w w' = false -> k_unhidden A w w' = false ->
+    k_live_cleared A fx w w' = false -> k_unhidden A fx w w' = false ->
     inv w' (vapply v ps1).
   Proof.
-    intros I Hgood Hsame. cbn zeta.
+    intros I Hgood Hidx' Hsame. cbn zeta.
     set (new := all_errs A (fst pc)).
-    set (d1 := if snd pc then fst (push_all_again (fix12a fx) (ds (sv w)) new) else ds (sv w)).
-    set (ps1 := if snd pc then snd (push_all_again (fix12a fx) (ds (sv w)) new) else []).
+    set (d1 := if snd pc then fst (push_all_again (fix12a fx) (fix_unhidden fx) (ds (sv w)) new) else ds (sv w)).
+    set (ps1 := if snd pc then snd (push_all_again (fix12a fx) (fix_unhidden fx) (ds (sv w)) new) else []).
     set (w' := {| disk := dk'; sv := {| pj := fst pc; cache := cache (sv w); ds := d1 |}; ebuf := ebuf w; dirty := dirty w |}).
     intros Hlc Hun.
     assert (Hsaved1 : saved d1 = if snd pc then new else saved (ds (sv w))) by (unfold d1; destruct (snd pc); reflexivity).
     assert (Hlive1 : live d1 = live (ds (sv w))) by (unfold d1; destruct (snd pc); reflexivity).
+    assert (Hclean1 : clean d1 = clean (ds (sv w))) by (unfold d1; destruct (snd pc); reflexivity).
     pose proof (i_view _ _ I) as Iv.
     constructor; cbn [w' disk sv pj ds cache ebuf dirty].
     - exact Hgood.
@@ -465,14 +509,16 @@ Section Inv.
     - intros g. rewrite Hlive1. change (syn_of w' g) with (syn_of w g). specialize (Iv g).
       assert (Hsw' : saved_of A w' g = vget (saved d1) g) by reflexivity.
       unfold ps1. destruct (snd pc) eqn:Ec.
-      + rewrite Hsaved1. apply push_all_file_ok; [exact Iv|apply (i_saved_ne _ _ I)|apply all_errs_nonempty| |].
+      + rewrite Hsaved1. apply push_all_file_ok; [exact Iv|apply (i_saved_ne _ _ I)|apply all_errs_nonempty|apply (i_clean _ _ I)| |].
         * intros Hdty Hl. destruct (class_conds w w' g Hlc Hun Hdty Hdty) as [C1 _].
           { intros _. unfold live_has, ahas. cbn [w' sv ds]. rewrite Hlive1. destruct (aget (live (ds (sv w))) g); [reflexivity|contradiction]. }
           specialize (C1 Hl). rewrite Hsw' in C1. cbn [w' sv ds] in C1. rewrite Hsaved1 in C1. exact C1.
-        * intros Hdty Hl. destruct (class_conds w w' g Hlc Hun Hdty Hdty) as [_ C2].
+        * intros Hdty Hl Hfu. destruct (class_conds w w' g Hlc Hun Hdty Hdty) as [_ C2].
           { intros Hx. contradiction. }
-          specialize (C2 Hl). rewrite !Hsw' in C2. rewrite Hsaved1 in C2. exact C2.
+          specialize (C2 Hl Hfu). rewrite !Hsw' in C2. rewrite Hsaved1 in C2. exact C2.
       + cbn [vapply fold_left]. rewrite Hsaved1. exact Iv.
+    - intros g. rewrite Hclean1. change (syn_of w' g) with (syn_of w g). apply (i_clean _ _ I).
+    - exact Hidx'.
   Qed.
 
   Definition item_disk (dk : amap txt) (i : witem A) : amap txt :=
@@ -521,35 +567,45 @@ Section Inv.
   Qed.
 
   Lemma did_watched_quiet dk (s : server A) evs :
-    (forall f, In f (map fst evs) -> aget (live (ds s)) f = None) -> evs <> [] ->
+    fix_watched fx = true \/ (forall f, In f (map fst evs) -> aget (live (ds s)) f = None) -> evs <> [] ->
     did_watched A fx dk s evs =
     let pc := handle_events A fx dk (pj s) evs in
     ({| pj := fst pc; cache := cache s;
-        ds := if snd pc then fst (push_all_again (fix12a fx) (ds s) (all_errs A (fst pc))) else ds s |},
-     if snd pc then snd (push_all_again (fix12a fx) (ds s) (all_errs A (fst pc))) else []).
+        ds := if snd pc then fst (push_all_again (fix12a fx) (fix_unhidden fx) (ds s) (all_errs A (fst pc))) else ds s |},
+     if snd pc then snd (push_all_again (fix12a fx) (fix_unhidden fx) (ds s) (all_errs A (fst pc))) else []).
   Proof.
-    intros Hl Hne. unfold did_watched. rewrite (clear_fold_noop evs (ds s) [] Hl).
+    intros Hl Hne. unfold did_watched.
+    assert (E : (if fix_watched fx then (ds s, [])
+                 else fold_left (fun (dp : dstate * list publish) (ev : file * kind) =>
+                        let '(d', ps') := clear_change (fst dp) (fst ev) in (d', snd dp ++ ps')) evs (ds s, [])) = (ds s, [])).
+    { destruct (fix_watched fx); [reflexivity|]. destruct Hl as [Hl|Hl]; [discriminate|]. apply (clear_fold_noop evs (ds s) [] Hl). }
+    rewrite E. clear E.
     destruct evs as [|e evs]; [congruence|]. cbn [is_nil pj cache ds].
     destruct (handle_events A fx dk (pj s) (e :: evs)) as [p1 chg]. cbn [fst snd]. destruct chg.
     - rewrite push_again_eq. cbn [ds pj cache app]. reflexivity.
     - reflexivity.
   Qed.
 
+  Lemma did_watched_nil dk (s : server A) :
+    did_watched A fx dk s [] = ({| pj := pj s; cache := cache s; ds := ds s |}, []).
+  Proof. unfold did_watched. destruct (fix_watched fx); reflexivity. Qed.
+
   Lemma act_watched_eq w l :
-    (forall i, In i l -> aget (live (ds (sv w))) (witem_file A i) = None) -> l <> [] ->
+    fix_watched fx = true \/ (forall i, In i l -> aget (live (ds (sv w))) (witem_file A i) = None) -> l <> [] ->
     act A fx w (AWatched l) =
     let dk' := items_disk (disk w) l in
     let pc := handle_events A fx dk' (pj (sv w)) (map (witem_ev A) l) in
     ({| disk := dk';
         sv := {| pj := fst pc; cache := cache (sv w);
-                 ds := if snd pc then fst (push_all_again (fix12a fx) (ds (sv w)) (all_errs A (fst pc))) else ds (sv w) |};
+                 ds := if snd pc then fst (push_all_again (fix12a fx) (fix_unhidden fx) (ds (sv w)) (all_errs A (fst pc))) else ds (sv w) |};
         ebuf := ebuf w; dirty := dirty w |},
-     if snd pc then snd (push_all_again (fix12a fx) (ds (sv w)) (all_errs A (fst pc))) else []).
+     if snd pc then snd (push_all_again (fix12a fx) (fix_unhidden fx) (ds (sv w)) (all_errs A (fst pc))) else []).
   Proof.
     intros Hl Hne. cbn [act]. unfold steps. rewrite steps_disk. cbn [fold_left fst snd step disk sv ebuf dirty].
     rewrite did_watched_quiet.
     - cbn zeta. reflexivity.
-    - intros f Hf. apply in_map_iff in Hf as [[f' k] [E Hf]]. cbn [fst] in E. subst f'.
+    - destruct Hl as [Hl|Hl]; [left; exact Hl|right].
+      intros f Hf. apply in_map_iff in Hf as [[f' k] [E Hf]]. cbn [fst] in E. subst f'.
       apply in_map_iff in Hf as [i [E Hi]]. specialize (Hl i Hi). destruct i; cbn [witem_ev witem_file] in *; injection E as <- _; exact Hl.
     - destruct l; [congruence|discriminate].
   Qed.
@@ -575,15 +631,16 @@ Section Inv.
     inv w v -> conf_action A w (AWatched l) = true ->
     let w' := fst (act A fx w (AWatched l)) in
     k_outside A (AWatched l) = false ->
-    k_live_cleared A fx w w' = false -> k_unhidden A w w' = false -> k_watched_dirty A w (AWatched l) = false ->
-    k_stale_ref A w' = false -> k_empty_shortcut A fx w (AWatched l) = false ->
+    k_live_cleared A fx w w' = false -> k_unhidden A fx w w' = false -> k_watched_dirty A fx w (AWatched l) = false ->
+    k_stale_ref A fx w' = false -> k_empty_shortcut A fx w (AWatched l) = false ->
     inv w' (vapply v (snd (act A fx w (AWatched l)))).
   Proof.
     intros I Hconf. cbn zeta. unfold conf_action in Hconf. apply andb_true_iff in Hconf as [Hnd Hwm].
     destruct l as [|i0 l0] eqn:El.
     - (* empty notification: nothing happens *)
-      intros _ _ _ _ _ _. cbn [act map app]. unfold steps. cbn [fold_left fst snd step did_watched is_nil]. cbn [app vapply fold_left].
-      destruct I as [Ig Is Ine Ic Io Iv]. constructor; cbn [disk sv pj ds cache ebuf dirty]; assumption.
+      intros _ _ _ _ _ _. cbn [act map app]. unfold steps. cbn [fold_left fst snd step]. rewrite did_watched_nil.
+      cbn [fst snd app vapply fold_left].
+      destruct I as [Ig Is Ine Ic Io Iv Icl Iidx]; constructor; cbn [disk sv pj ds cache ebuf dirty]; assumption.
     - rewrite <- El in *. assert (Hne : l <> []) by (rewrite El; discriminate). clear El i0 l0.
       intros Hout Hlc Hun Hwd Hst Hemp.
       apply fnodup_nodup in Hnd.
@@ -592,16 +649,18 @@ Section Inv.
         destruct (in_dir A (witem_file A i)) eqn:E; [reflexivity|]. exfalso.
         assert (existsb (fun f => negb (in_dir A f)) (map (witem_file A) l) = true); [|congruence].
         apply existsb_exists. exists (witem_file A i). split; [apply in_map; exact Hi|]. rewrite E. reflexivity. }
-      assert (Hl : forall i, In i l -> aget (live (ds (sv w))) (witem_file A i) = None).
-      { intros i Hi. destruct (aget (live (ds (sv w))) (witem_file A i)) as [l0|] eqn:E; [|reflexivity]. exfalso.
+      assert (Hl : fix_watched fx = true \/ forall i, In i l -> aget (live (ds (sv w))) (witem_file A i) = None).
+      { unfold k_watched_dirty in Hwd. destruct (fix_watched fx) eqn:Efw; [left; reflexivity|right]. cbn [negb andb] in Hwd.
+        intros i Hi. destruct (aget (live (ds (sv w))) (witem_file A i)) as [l0|] eqn:E; [|reflexivity]. exfalso.
         destruct (live_some_dirty w v _ l0 I E) as [Hdty _].
-        unfold k_watched_dirty in Hwd.
         assert (existsb (fun i => fmem (witem_file A i) (dirty w) && live_has A w (witem_file A i)) l = true); [|congruence].
         apply existsb_exists. exists i. split; [exact Hi|]. apply fmem_in in Hdty. rewrite Hdty. unfold live_has, ahas. rewrite E. reflexivity. }
       revert Hlc Hun Hst. rewrite (act_watched_eq w l Hl Hne). cbn zeta. cbn [fst snd]. intros Hlc Hun Hst.
       set (dk' := items_disk (disk w) l) in *.
       set (pc := handle_events A fx dk' (pj (sv w)) (map (witem_ev A) l)) in *.
-      apply stale_ref_false in Hst. cbn [sv pj] in Hst.
+      assert (Hidx' : fix_index fx = true -> idx_eq A (fst pc)).
+      { intros Hfix. apply handle_events_idx; [exact Hfix|]. apply (i_idx _ _ I). exact Hfix. }
+      apply stale_ref_false in Hst; [|exact Hidx']. cbn [sv pj] in Hst.
       destruct (items_disk_spec l (disk w) Hnd) as [D1 D2]. fold dk' in D1, D2.
       assert (B : batch_ok A (disk w) dk' (map (witem_ev A) l)).
       { constructor.
@@ -625,7 +684,7 @@ Section Inv.
         - discriminate. }
       pose proof (he_batch A fx HA (disk w) dk' (pj (sv w)) (map (witem_ev A) l) (i_good _ _ I) B Hemp') as HE.
       cbn zeta in HE. fold pc in HE. destruct HE as [HE1 HE2].
-      apply (watched_common w v dk' pc I); [apply HE1; exact Hst|exact HE2|exact Hlc|exact Hun].
+      apply (watched_common w v dk' pc I); [apply HE1; exact Hst|exact Hidx'|exact HE2|exact Hlc|exact Hun].
   Qed.
 
   (* ---------- one conformant, class-free action keeps the invariant ---------- *)
@@ -756,11 +815,42 @@ Qed.
 (* the class predicates of repaired findings are constantly false under the deployed flags *)
 Lemma repaired_classes_gone (A : analysis) (w w' : world A) (a : action A) :
   k_live_cleared A deployed w w' = false /\ k_close_revert A deployed w a = false /\
-  k_empty_shortcut A deployed w a = false.
+  k_empty_shortcut A deployed w a = false /\ k_unhidden A deployed w w' = false /\
+  k_watched_dirty A deployed w a = false /\ k_stale_ref A deployed w' = false.
 Proof.
-  split; [reflexivity|]. split; [reflexivity|].
+  split; [reflexivity|]. split; [reflexivity|]. split; [|repeat split; reflexivity].
   unfold k_empty_shortcut, empty_hit, empty_hit_p. cbn [deployed fix_empty negb andb].
   destruct a as [f|f t|f|f|l|e]; try reflexivity.
   - destruct (aget (ebuf w) f); reflexivity.
   - induction l as [|i l IH]; [reflexivity|]. cbn [existsb]. rewrite IH. destruct i; reflexivity.
 Qed.
+
+(* hence the only class a history of the deployed model can meet is outside_file *)
+Lemma deployed_classes_step (A : analysis) (w w' : world A) (a : action A) :
+  classes_step A deployed w a w' = if k_outside A a then [1] else [].
+Proof.
+  destruct (repaired_classes_gone A w w' a) as [H1 [H2 [H3 [H4 [H5 H6]]]]].
+  unfold classes_step. rewrite H1, H2, H3, H4, H5, H6. destruct (k_outside A a); reflexivity.
+Qed.
+
+Lemma deployed_scan_inside (A : analysis) cf (h : list (action A)) : forall w,
+  inside_only A h = true -> snd (scan_history A deployed cf w h) = [].
+Proof.
+  induction h as [|a h IH]; intros w Hin; [reflexivity|]. cbn [inside_only forallb] in Hin.
+  apply andb_true_iff in Hin as [Ha Hin]. apply negb_true_iff in Ha. cbn [scan_history].
+  specialize (IH (fst (act A deployed w a)) Hin).
+  destruct (scan_history A deployed cf (fst (act A deployed w a)) h) as [c ks]. cbn [snd] in *. subst ks.
+  rewrite deployed_classes_step, Ha. reflexivity.
+Qed.
+
+Lemma deployed_guard (A : analysis) (dk : amap (text A)) (h : list (action A)) :
+  conformant A deployed dk h = true -> inside_only A h = true -> guard A deployed dk h = true.
+Proof.
+  intros Hc Hin. unfold guard, classes. rewrite Hc, (deployed_scan_inside A _ h _ Hin). reflexivity.
+Qed.
+
+(* the property for the deployed model: every conformant history over workspace files *)
+Theorem deployed_view (A : analysis) (HA : analysis_ok A) (dk : amap (text A)) (h : list (action A)) :
+  conformant A deployed dk h = true -> inside_only A h = true ->
+  forall f, Permutation (view (snd (run A deployed dk h)) f) (demanded A deployed (fst (run A deployed dk h)) f).
+Proof. intros Hc Hin. apply (guarded_view A deployed HA). apply deployed_guard; assumption. Qed.
